@@ -40,6 +40,8 @@ EXPLAIN = {
     "MLimits": "fitted M outside [second-to-last cumulative production, inplace_max]",
     "PLimits": "fitted p_initial outside [highest frac-face pressure, pressure_imax]",
     "Window1Identity": "with no smoothing / a window of one sample the pressures reaching the objective differ from the table's",
+    "RowsUsed": "the number of rows handed to the minimiser differs from the number of rows of the table that have production and a pressure (filtering requested) / from all rows (no filtering)",
+    "ExcludedRowsIgnored": "readings carried by excluded rows (pressure on a zero-rate day, rate on a day without pressure) change what the minimiser is given",
     "NotMeaningful": "harness produced a table whose default limits are empty (machinery)",
 }
 
@@ -274,11 +276,16 @@ def objective_events(ref: dict, seed, count: int) -> list[dict]:
                "pf_first_last": [float(pf[0]), float(pf[-1])],
                "integer_days": bool(np.all(days == np.arange(n)))}
 
-        def pars(tau, m, p):
+        order = (("tau", "M", "p_initial"), ("M", "tau", "p_initial"), ("p_initial", "M", "tau"), ("M", "p_initial", "tau"),
+                 ("tau", "p_initial", "M"), ("p_initial", "tau", "M"))[gi_obj % 6]
+        raw["parameter_order"] = list(order)
+
+        def pars(tau, m, p, order=order):
+            # a Parameters object is keyed by name: callers build it in any order (the repository's plotting test uses M, tau, p_initial)
+            vals = {"tau": tau, "M": m, "p_initial": p}
             q = Parameters()
-            q.add("tau", value=tau)
-            q.add("M", value=m)
-            q.add("p_initial", value=p)
+            for name in order:
+                q.add(name, value=vals[name])
             return q
 
         ev = {"ev": "Objective", "kind": "direct", "atgen": False, "zero_e15": 0, "agree_e15": 0, "outcome": "ok", "raw": raw}
@@ -365,8 +372,31 @@ def fit_events(ref: dict, seed, count: int) -> list[dict]:
         outcome, cap, result = call_fit(prod, pvt, spy=True, **kw)
         raw = {"generated_with": gen, "rows": n0, "zero_rate_days": nz, "missing_pressures": nm,
                "kwargs": {k: (None if v is None else float(v) if not isinstance(v, bool) else v) for k, v in kw.items()}}
-        ev = {"ev": "FitResult", "n": 0, "n_iter": n_iter, "outcome": outcome, "tq": list(quant.NANQ), "mq": list(quant.NANQ),
-              "cprev_q": list(quant.NANQ), "pq": list(quant.NANQ), "pfmax_q": list(quant.NANQ), "w1_e15": -1, "raw": raw}
+        # what the table itself says must reach the fit (independent of what the code did with it)
+        kept = (gas > 0) & ~np.isnan(pres) if filt else np.ones(n0, dtype=bool)
+        ev = {"ev": "FitResult", "n": 0, "n_exp": int(kept.sum()), "n_iter": n_iter, "outcome": outcome,
+              "cexp_q": quant.q(float(np.cumsum(gas[kept])[-2]), 0.0, inplace),
+              "pexp_q": quant.q(float(np.nanmax(pres[kept].astype(float))), 0.0, pimax),
+              "tq": list(quant.NANQ), "mq": list(quant.NANQ),
+              "cprev_q": list(quant.NANQ), "pq": list(quant.NANQ), "pfmax_q": list(quant.NANQ), "w1_e15": -1, "excl_e15": -1, "raw": raw}
+        if "fcn_args" in cap and filt and not kept.all():
+            # "excluded" means without influence: other readings on the excluded rows (a pressure on a shut-in day, a rate on a day
+            # without a pressure) must leave everything the minimiser is given bit-identical
+            gas2, pres2 = gas.copy(), np.asarray(pres, dtype=float).copy()
+            shut, blind = (gas <= 0), np.isnan(pres2)
+            pres2[shut & ~blind] = pres2[shut & ~blind] * 0.35 + 50.0
+            gas2[blind] = gas2[blind] * 3.0 + 7.0
+            prod2 = prod.copy()
+            prod2["Gas"] = gas2
+            prod2["Pressure"] = pres2.astype(pres.dtype)
+            _o2, cap2, _r2 = call_fit(prod2, pvt, spy=False, **kw)
+            if "fcn_args" in cap2:
+                t1, c1, _p1, f1 = cap["fcn_args"]
+                t2, c2, _p2, f2 = cap2["fcn_args"]
+                ev["excl_e15"] = max(arr_e15(t1, t2, max(1.0, float(len(t1)))), arr_e15(c1, c2, float(np.max(np.abs(c1)))),
+                                     arr_e15(f1, f2, float(np.max(np.abs(f1)))))
+            else:
+                ev["excl_e15"] = quant.CAP
         if "fcn_args" in cap:
             time, cum, _p, pfa = cap["fcn_args"]
             ev["n"] = int(len(time))
@@ -456,7 +486,7 @@ def trace_validation(ctx: core.Ctx, ref: dict, n_obj: int, n_fit: int, n_pipe: i
     for v in verdicts:
         t, e = src[(v["tid"], v["seq"])]
         for cl in v["clauses"]:
-            if cl == "NotMeaningful":
+            if cl == "NotMeaningful":   # judged on the harness's own reading of the table, never on what the code made of it
                 raise tlc.MachineryError(f"harness generated a table with empty default limits: {e['raw']}")
             ctx.violation(cl, f"[{t[0]} seed {t[2]} #{v['seq']}] {EXPLAIN.get(cl, cl)}: {e['ev']} event ({e.get('kind', '')}) {e['raw']} -> "
                           f"{ {k: x for k, x in strip(e).items() if k not in ('ev',)} }",
@@ -464,6 +494,7 @@ def trace_validation(ctx: core.Ctx, ref: dict, n_obj: int, n_fit: int, n_pipe: i
     fits = [e for (_t, e) in src.values() if e["ev"] == "FitResult"]
     objs = [e for (_t, e) in src.values() if e["ev"] == "Objective"]
     ctx.extra["fits"] = {"total": len(fits), "by_n_iter": {str(k): sum(e["n_iter"] == k for e in fits) for k in (1, 4, 20, 40)},
+                         "with_excluded_rows_perturbed": sum(e["excl_e15"] >= 0 for e in fits),
                          "objective_events": len(objs), "at_generating_parameters": sum(e["atgen"] for e in objs),
                          "worst_objective_agreement_e15": max([e["agree_e15"] for e in objs], default=0),
                          "worst_zero_at_generating_e15": max([e["zero_e15"] for e in objs], default=0)}
